@@ -195,6 +195,16 @@ func c13(c *core.Ctx) {
 	c.Section("reentrant-collect", c.N(300, 100000), func(_ int64, r *gen.Rand) {
 		c13Reentrant(c, r)
 	})
+	// transaction ids that differ as 96-bit values but coincide under the usual ways of folding 12 bytes into a machine
+	// word (xor/sum of the 32-bit words, first or last 8 bytes equal): they are different transactions
+	c.Section("colliding-ids", c.N(400, 100000), func(_ int64, r *gen.Rand) {
+		c13Family(c, r)
+	})
+	// a handler that registers a new, already overdue transaction while a mass Collect is delivering: Collect(t) is one
+	// snapshot, the newcomer is not part of it
+	c.Section("start-during-mass-collect", c.N(60, 20000), func(_ int64, r *gen.Rand) {
+		c13StartDuringMass(c, r)
+	})
 	// extreme instants: zero time, epoch, year 1, 2262 (UnixNano limit), 9999
 	c.SectionSerial("extreme-times", 1, func(_ int64, _ *gen.Rand) {
 		pts := []time.Time{{}, time.Unix(0, 0), time.Date(1, 1, 1, 0, 0, 1, 0, time.UTC), time.Unix(0, 1<<63-1), time.Unix(0, 1<<63-1).Add(time.Nanosecond),
@@ -534,6 +544,180 @@ func c13Reentrant(c *core.Ctx, r *gen.Rand) {
 	_ = a.Close()
 	if closed != nC {
 		c.Violate("spec-mismatch-reentrant", "spec-mismatch:Close-after-reentrant-collect", map[string]interface{}{"remaining": nC, "closed_events": closed})
+	}
+	c.Distinct(r.U64())
+}
+
+// c13Family: random calls over a family of ids engineered to collide under word folds, against a map keyed by the full id.
+func c13Family(c *core.Ctx, r *gen.Rand) {
+	type tid = [stun.TransactionIDSize]byte
+	base := r.TID()
+	pat := [4]byte{byte(1 + r.Intn(255)), byte(1 + r.Intn(255)), byte(1 + r.Intn(255)), byte(1 + r.Intn(255))}
+	xorAt := func(t tid, offs ...int) tid {
+		for _, o := range offs {
+			for k := 0; k < 4; k++ {
+				t[o+k] ^= pat[k]
+			}
+		}
+
+		return t
+	}
+	swapWords := func(t tid, a, b int) tid {
+		for k := 0; k < 4; k++ {
+			t[a+k], t[b+k] = t[b+k], t[a+k]
+		}
+
+		return t
+	}
+	lastOnly, firstOnly := base, base
+	lastOnly[11] ^= 0x01 // same first 8 (and 11) bytes
+	firstOnly[0] ^= 0x80 // same last 8 (and 11) bytes
+	ids := []tid{base, xorAt(base, 4, 8), xorAt(base, 0, 4), xorAt(base, 0, 8), swapWords(base, 0, 8), swapWords(base, 4, 8), lastOnly, firstOnly}
+	seen := map[tid]bool{}
+	uniq := ids[:0]
+	for _, id := range ids {
+		if !seen[id] {
+			seen[id] = true
+			uniq = append(uniq, id)
+		}
+	}
+	ids = uniq
+	model := map[tid]time.Time{}
+	closed := false
+	var got []string
+	a := stun.NewAgent(func(e stun.Event) { got = append(got, fmt.Sprintf("%x:%s", e.TransactionID, amEventClass(e))) })
+	var trace []string
+	for s := 0; s < 60; s++ {
+		got = got[:0]
+		var want []string
+		id := ids[r.Intn(len(ids))]
+		var err error
+		wantErr := "nil"
+		var desc string
+		switch op := r.Intn(10); {
+		case op < 4:
+			d := amEpoch.Add(time.Duration(r.Intn(10)) * time.Millisecond)
+			desc = fmt.Sprintf("Start(%x)", id)
+			err = a.Start(id, d)
+			switch {
+			case closed:
+				wantErr = "agent-closed"
+			case hasKey(model, id):
+				wantErr = "exists"
+			default:
+				model[id] = d
+			}
+		case op < 6:
+			desc = fmt.Sprintf("Stop(%x)", id)
+			err = a.Stop(id)
+			switch {
+			case closed:
+				wantErr = "agent-closed"
+			case !hasKey(model, id):
+				wantErr = "not-exists"
+			default:
+				delete(model, id)
+				want = append(want, fmt.Sprintf("%x:%s", id, evStopped))
+			}
+		case op < 8:
+			desc = fmt.Sprintf("Process(%x)", id)
+			err = a.Process(&stun.Message{TransactionID: id})
+			if closed {
+				wantErr = "agent-closed"
+			} else {
+				delete(model, id)
+				want = append(want, fmt.Sprintf("%x:%s", id, evMessage))
+			}
+		case op < 9 || s < 40:
+			t := amEpoch.Add(time.Duration(r.Intn(10)) * time.Millisecond)
+			desc = fmt.Sprintf("Collect(+%v)", t.Sub(amEpoch))
+			err = a.Collect(t)
+			if closed {
+				wantErr = "agent-closed"
+			} else {
+				for k, d := range model {
+					if d.Before(t) {
+						delete(model, k)
+						want = append(want, fmt.Sprintf("%x:%s", k, evTimeout))
+					}
+				}
+			}
+		default:
+			desc = "Close"
+			err = a.Close()
+			if closed {
+				wantErr = "agent-closed"
+			} else {
+				for k := range model {
+					want = append(want, fmt.Sprintf("%x:%s", k, evClosed))
+				}
+				model = map[tid]time.Time{}
+				closed = true
+			}
+		}
+		trace = append(trace, desc)
+		c.Count("calls_compared", 1)
+		if amErrClass(err) != wantErr || multiset(got) != multiset(want) {
+			c.Violate("spec-mismatch-colliding-ids", "spec-mismatch-colliding-ids:"+opName(desc), map[string]interface{}{
+				"calls": strings.Join(trace, " ; "), "agent_err": amErrClass(err), "spec_err": wantErr, "agent_events": multiset(got), "spec_events": multiset(want)})
+
+			return
+		}
+		c.Count("events_compared", int64(len(got)))
+	}
+	c.Eval(1)
+	c.Distinct(r.U64())
+}
+
+// c13StartDuringMass: n transactions expire in one Collect(t); the handler, on its first event, registers a newcomer
+// whose deadline is already before t. Collect is one snapshot: the newcomer gets no timeout from this call and is still
+// registered afterwards.
+func c13StartDuringMass(c *core.Ctx, r *gen.Rand) {
+	type tid = [stun.TransactionIDSize]byte
+	n := r.PickInt([]int{1, 50, 99, 100, 101, 150, 250, 400})
+	t := amEpoch.Add(time.Second)
+	var a *stun.Agent
+	timeouts := map[tid]int{}
+	newcomer := tid{0xEE, 0xEE, 0x01}
+	startErr := "not-called"
+	seen := 0
+	trigger := r.PickInt([]int{0, 1, n / 2, n - 1})
+	if trigger >= n {
+		trigger = n - 1
+	}
+	a = stun.NewAgent(func(e stun.Event) {
+		if amEventClass(e) == evTimeout {
+			timeouts[e.TransactionID]++
+		}
+		if seen == trigger {
+			startErr = amErrClass(a.Start(newcomer, t.Add(-time.Duration(1+r.Intn(1000))*time.Millisecond)))
+		}
+		seen++
+	})
+	for i := 0; i < n; i++ {
+		_ = a.Start(tid{byte(i), byte(i >> 8), 0x02}, t.Add(-time.Nanosecond))
+	}
+	cerr := a.Collect(t)
+	c.Eval(1)
+	c.Count("calls_compared", int64(n)+3)
+	c.Count("reentrant_calls", 1)
+	stopErr := amErrClass(a.Stop(newcomer))
+	problem := ""
+	switch {
+	case amErrClass(cerr) != "nil" || startErr != "nil":
+		problem = fmt.Sprintf("Collect returned %s, the nested Start returned %s", amErrClass(cerr), startErr)
+	case timeouts[newcomer] != 0:
+		problem = "the transaction registered by the handler during Collect(t) got a timeout from that very call"
+	case len(timeouts) != n:
+		problem = fmt.Sprintf("%d of %d expired transactions got a timeout", len(timeouts), n)
+	case stopErr != "nil":
+		problem = "after Collect returned, Stop of the transaction registered by the handler reports " + stopErr
+	}
+	if problem != "" {
+		c.Violate("spec-mismatch-reentrant", "spec-mismatch:Start-from-handler-during-mass-Collect", map[string]interface{}{
+			"expired_in_one_collect": n, "handler_starts_on_event": trigger, "problem": problem})
+
+		return
 	}
 	c.Distinct(r.U64())
 }
